@@ -383,7 +383,7 @@ func init() {
 			return 1200
 		},
 		ChunkSize:   40,
-		Rule:        "each case runs 1-12 goroutines issuing Publish/PublishRetained (header+payload vectored), Subscribe/Unsubscribe/Ping (single buffer) and persisted publishes while the reference broker sends QoS 1/2 messages (so the read routine writes acknowledgements) and connections get replaced (resend); the scripted connection splits writes: accepted byte counts 0, 1, len-1 and PRNG values followed by a deadline expiry (the call continues when a byte was accepted) or a hard error, several splits per packet, spanning the header/payload boundary. Oracle per connection: the byte log decodes (independent codec) into complete packets, each equal byte for byte to the reference encoding of an issued request, a stored record or an owed acknowledgement, optionally followed by ONE incomplete packet that is a true prefix of an issued packet and ends the log; a request that returned nil has its packet in full on some connection. One case in 12 tears the read routine's own acknowledgement (expiry after 1-3 bytes, then an expiry without progress, so the connection stays writable) while 1-3 requests wait on the write lock and the read routine is delayed at the entry of its way offline. One case in 12 replaces the scripted connection by AF_UNIX socket pairs (the net.Buffers writev path) whose peer reads slowly and stalls beyond PauseTimeout: every byte the kernel accepted is read back and must decode into whole packets with byte-exact payloads, a Publish that returned nil must be there in full, a trailing fragment must be a prefix of an issued packet. Non-trivial: at least one write split by the script (sockets: at least one partial write continued after an expiry, seen through a note hook); distinct by goroutines, split kinds fired and connections.",
+		Rule:        "each case draws a Config (user name, password nil/empty/set, will, keep-alive: the CONNECT that opens every connection) and runs 1-12 goroutines issuing Publish/PublishRetained (header+payload vectored), Subscribe/Unsubscribe/Ping (single buffer) and persisted publishes while the reference broker sends QoS 1/2 messages (so the read routine writes acknowledgements) and connections get replaced (resend); the scripted connection splits writes: accepted byte counts 0, 1, len-1 and PRNG values followed by a deadline expiry (the call continues when a byte was accepted) or a hard error, several splits per packet, spanning the header/payload boundary. Oracle per connection: the byte log decodes (independent codec) into complete packets, each equal byte for byte to the reference encoding of an issued request, a stored record or an owed acknowledgement, optionally followed by ONE incomplete packet that is a true prefix of an issued packet and ends the log; a request that returned nil has its packet in full on some connection. One case in 12 tears the read routine's own acknowledgement (expiry after 1-3 bytes, then an expiry without progress, so the connection stays writable) while 1-3 requests wait on the write lock and the read routine is delayed at the entry of its way offline. One case in 12 replaces the scripted connection by AF_UNIX socket pairs (the net.Buffers writev path) whose peer reads slowly and stalls beyond PauseTimeout: every byte the kernel accepted is read back and must decode into whole packets with byte-exact payloads, a Publish that returned nil must be there in full, a trailing fragment must be a prefix of an issued packet. Non-trivial: at least one write split by the script (sockets: at least one partial write continued after an expiry, seen through a note hook); distinct by goroutines, split kinds fired and connections.",
 		Assumptions: []string{"a failed Write reports fewer bytes than given; an expiry is only scripted under an armed write deadline", "1 case in 12 runs over AF_UNIX socket pairs with small kernel buffers, a slow reader and a PauseTimeout of 3-22 ms (genuine partial write/writev results and expiries); its oracle looks at bytes only and asserts nothing about timing"},
 		Run: func(c *run.Ctx) {
 			if c.Case%12 == 5 {
@@ -404,6 +404,16 @@ func init() {
 			f.PFragment = 0.3
 			f.PReadFail = 0.02 * c.Rng.Float64()
 			ep.Cfg.AtLeastOnceMax, ep.Cfg.ExactlyOnceMax = 64, 64
+			// the first packet of every connection comes from the Config
+			ep.Cfg.UserName = []string{"", "", "u", strings.Repeat("n", 200)}[c.Rng.Intn(4)]
+			ep.Cfg.Password = [][]byte{nil, nil, {}, []byte("secret"), make([]byte, 300)}[c.Rng.Intn(5)]
+			if c.Rng.Intn(3) == 0 {
+				ep.Cfg.Will.Topic = "will/" + strings.Repeat("w", c.Rng.Intn(150))
+				ep.Cfg.Will.Message = [][]byte{{}, []byte("gone"), make([]byte, 500)}[c.Rng.Intn(3)]
+				ep.Cfg.Will.Retain = c.Rng.Intn(2) == 0
+				ep.Cfg.Will.AtLeastOnce = c.Rng.Intn(2) == 0
+			}
+			ep.Cfg.KeepAlive = uint16([]int{0, 1, 60, 65535}[c.Rng.Intn(4)])
 			w.PointPlan = func(w *sim.World, point string, n int) sim.PointAction {
 				if strings.HasPrefix(point, "write.") || point == "toOffline.locked" || point == "connect.resent" {
 					switch w.Rng.Intn(4) {
